@@ -472,6 +472,17 @@ EnvExt(op) ==           \* op.id, op.b = <<>> (removed) or <<bytes>>
     /\ ext' = IF op.b = <<>> THEN Del(ext, op.id) ELSE Upd(ext, op.id, op.b[1])
     /\ UNCHANGED <<buckets, store, tmp, hasIndex, hd, res>>
 
+\* a process died while it held a writer: its temp file stays behind (nobody's any more)
+\* (kept in hd as a writer nobody holds, so that TmpAccounted - temp files = live writers -
+\* still says what it should; clear sweeps it like any other temp file)
+EnvTmp(op) ==
+    /\ tmp' = tmp + op.n
+    /\ hd' = IF op.n = 1
+             THEN Upd(hd, op.h, [kind |-> "writer", key |-> <<>>, algo |-> "sha256", opts |-> NoOpts,
+                                 n |-> 0, closed |-> FALSE, gone |-> FALSE, plan |-> "orphan"])
+             ELSE hd
+    /\ UNCHANGED <<buckets, store, ext, hasIndex, res>>
+
 \* a file that is no key's bucket appears under index-v5 (.DS_Store, an .nfs leftover, a README
 \* someone dropped there): no lookup, listing or removal may be affected by it
 EnvStray(op) ==
@@ -509,6 +520,7 @@ Do(op) ==
       [] op.op = "env_bucket"   -> EnvBucket(op)
       [] op.op = "env_ext"      -> EnvExt(op)
       [] op.op = "env_stray"    -> EnvStray(op)
+      [] op.op = "env_tmp"      -> EnvTmp(op)
 
 Init == /\ buckets = EmptyFn /\ store = EmptyFn /\ ext = EmptyFn /\ tmp = 0
         /\ hasIndex = FALSE /\ hd = EmptyFn /\ res = Ok("init")
